@@ -221,11 +221,34 @@ theorem tracedAt_trimRight (env : Env) : TracedAt trimRightM env [.trimRight] (.
 
 theorem traced_trimRight : Traced trimRightM := fun env => ⟨_, _, tracedAt_trimRight env⟩
 
-theorem traced_writeAll : ∀ cs, Traced (writeAllM cs)
-  | [] => traced_pure ()
+/-- one verbatim write on a fault-free writer: the text pending goes out unchanged, then the bytes
+    written, unchanged, whatever the trim flag was; nothing stays pending and the flag is clear -/
+theorem writeVerbatim_runPure (c : Bytes) (env : Env) (buf : Bytes) (t : Bool) :
+    (writeVerbatimM c { env := env, tw := { buf := buf, trim := t } }).runPure =
+      (buf ++ c, .ok ((), { env := env, tw := { buf := [], trim := false } })) := by
+  cases buf <;> cases c <;> cases t <;>
+    simp [writeVerbatimM, bind, M.bind, Prog.bind, writeM, flushM, Prog.runPure]
+
+theorem tracedAt_writeVerbatim (b : Bytes) (env : Env) :
+    TracedAt (writeVerbatimM b) env (verbatimOps b) (.ok () env) := by
+  unfold writeVerbatimM
+  exact tracedAt_bind_ok (tracedAt_write [] env)
+    (tracedAt_bind_ok (tracedAt_write b env) (tracedAt_flush env))
+
+theorem traced_writeVerbatim (b : Bytes) : Traced (writeVerbatimM b) :=
+  fun env => ⟨_, _, tracedAt_writeVerbatim b env⟩
+
+/-- the operations of a run of verbatim writes -/
+def verbatimAllOps (cs : List Bytes) : List WOp := (cs.map verbatimOps).flatten
+
+theorem tracedAt_writeAll (env : Env) : ∀ cs, TracedAt (writeAllM cs) env (verbatimAllOps cs) (.ok () env)
+  | [] => fun _ => rfl
   | c :: cs => by
     unfold writeAllM
-    exact traced_bind (traced_write c) (fun _ => traced_writeAll cs)
+    exact tracedAt_bind_ok (tracedAt_writeVerbatim c env) (tracedAt_writeAll env cs)
+
+theorem traced_writeAll (cs : List Bytes) : Traced (writeAllM cs) :=
+  fun env => ⟨_, _, tracedAt_writeAll env cs⟩
 
 /-- capture runs its body on a private writer that starts empty: nothing of the outer trim
     writer is read or changed -/
@@ -398,7 +421,7 @@ theorem traced_renderNode (c : RCtx) (hc : IncQuiet c) : ∀ n : Node, Traced (r
     refine traced_wrapFailAt _ _ (traced_bind (traced_getVar _) (fun lv => ?_))
     split
     · exact traced_fail _
-    · exact traced_bind (traced_setVar _ _) (fun _ => traced_bind (traced_write _) (fun _ => traced_pure _))
+    · exact traced_bind (traced_setVar _ _) (fun _ => traced_bind (traced_writeVerbatim _) (fun _ => traced_pure _))
   | .brk line => by unfold renderNode; exact traced_pure _
   | .cont line => by unfold renderNode; exact traced_pure _
   | .incl line args => by
@@ -410,7 +433,7 @@ theorem traced_renderNode (c : RCtx) (hc : IncQuiet c) : ∀ n : Node, Traced (r
       refine traced_bind (traced_inc c hc _ _ _) (fun r => ?_)
       obtain ⟨st, out⟩ := r
       cases st with
-      | done => exact traced_bind (traced_write _) (fun _ => traced_pure _)
+      | done => exact traced_bind (traced_writeVerbatim _) (fun _ => traced_pure _)
       | brk e => exact traced_pure _
       | cont e => exact traced_pure _
     · exact traced_fail _
